@@ -189,6 +189,22 @@ FlushFail(cls) ==
   /\ UNCHANGED <<bevars, inv, ist, outcome, loc, pc, ph, nph, cur, att, err, rcmode, val, crashes>>
   /\ UNCHANGED monvars
 
+\* ... or the call is APPLIED by the backend but its answer is lost (timeout, connection reset): the backend moves on exactly as in
+\* Flush(k), the SDK sees a failed call exactly as in FlushFail (nothing merged, waiters get BackgroundThreadError)
+FlushFailApplied(k, cls) ==
+  /\ ist = "Running" /\ pfail = "no" /\ k \in 1..Len(q) /\ apifails < MaxApiFails
+  /\ cls \in {"retriable", "fatal"}
+  /\ LET us == SubSeq(q, 1, k)
+         b1 == ApplyAll(be, SelectSeq(us, LAMBDA u : u.op # 0))
+     IN /\ be' = b1
+        /\ armed' = armed \cup {i \in OpsOf(us) : b1[i].st = "PENDING" \/ (Prog[i].kind = "WAIT" /\ b1[i].st = "STARTED")}
+        /\ execRes' = IF \E j \in 1..k : us[j].op = 0 /\ us[j].act # "EMPTY" THEN "recorded" ELSE execRes
+        /\ chg' = chg \cup OpsOf(us)
+        /\ bad' = bad \cup (IF AllLegal(be, us) THEN {} ELSE {"C11-illegal"})
+                      \cup (IF execRes # "none" THEN {"C11-after-exec-result"} ELSE {})
+  /\ pfail' = cls /\ q' = <<>> /\ apifails' = apifails + 1
+  /\ UNCHANGED <<wake, inv, ist, outcome, loc, pc, ph, nph, cur, att, err, rcmode, val, crashes, fnCount, obs, known, midAmo, last, nobs, lg>>
+
 ---------------------------------------------------------------------------
 \* User thread helpers
 
@@ -601,7 +617,8 @@ UserStep == StepCheck \/ StepRecheck \/ StepFnEnter \/ StepFnExit \/ StepDone \/
             \/ Track \/ LogStep \/ Resume \/ PostPut \/ BteEnd
 
 EnvStep == (\E i \in OpIdx : FireTimer(i)) \/ (\E i \in OpIdx, o \in TERMINAL : CompleteExt(i, o))
-PipeStep == (\E k \in 1..Len(q) : Flush(k)) \/ (\E c \in {"retriable", "fatal"} : FlushFail(c))
+PipeStep == \/ (\E k \in 1..Len(q) : Flush(k)) \/ (\E c \in {"retriable", "fatal"} : FlushFail(c))
+            \/ (\E k \in 1..Len(q), c \in {"retriable", "fatal"} : FlushFailApplied(k, c))
 
 Stuck == ist = "Idle" /\ ~ExecTerminal /\ ~ENABLED StartInvocation
 Done == ist = "Idle" /\ (ExecTerminal \/ Stuck \/ inv >= MaxInv)
